@@ -28,6 +28,7 @@ import (
 	"strings"
 	"sync/atomic"
 	"testing"
+	"time"
 
 	"github.com/prometheus/common/promslog"
 
@@ -472,7 +473,7 @@ func c24PrepareTarget(name, parent string, subset []int, rot int, seg int64) (*c
 	}
 	tg := &c24Target{name: name, dir: dir, m: m, files: map[string][]byte{}, extents: map[string][]c24Extent{}}
 	if f, _ := c24CheckBlock(dir, m, true); f != nil {
-		return nil, fmt.Errorf("pristine block does not round-trip: %s", f.Msg)
+		return nil, &c24PristineErr{f}
 	}
 	for _, fn := range []string{"chunks/000001", "index"} {
 		b, err := os.ReadFile(filepath.Join(dir, fn))
@@ -544,6 +545,10 @@ func c24PrepareTarget(name, parent string, subset []int, rot int, seg int64) (*c
 	}
 	return tg, nil
 }
+
+type c24PristineErr struct{ f *c24Fail }
+
+func (e *c24PristineErr) Error() string { return "pristine block does not round-trip: " + e.f.Msg }
 
 type c24Damage struct {
 	tg      *c24Target
@@ -705,7 +710,7 @@ func c24Plain(ms []chunks.Meta) []string {
 	return out
 }
 
-func c24SelfTest(t *testing.T) {
+func c24SelfTest(t *testing.T, x *c24Run) {
 	m := c24Build([]int{1, 2}, 0)
 	tmp := t.TempDir()
 	dir, _, err := c07WriteBlock(tmp, c07ULID(7), m.Series, 0)
@@ -713,7 +718,10 @@ func c24SelfTest(t *testing.T) {
 		t.Fatalf("self-test: %v", err)
 	}
 	if f, _ := c24CheckBlock(dir, m, true); f != nil {
-		t.Fatalf("self-test: pristine block rejected: %s", f.Msg)
+		// the real writers/readers do not round-trip the simplest block: a finding, not a tool failure
+		f.Sig = "roundtrip-" + f.Sig
+		x.viol(f, c24Case{Subset: []int{1, 2}, Writer: "writers"})
+		return
 	}
 	// the oracle must notice a different model: other chunk bytes, other labels
 	m2 := c24Build([]int{1, 2}, 1)
@@ -758,6 +766,11 @@ func TestVerifC24(t *testing.T) {
 				continue
 			}
 			tg, err := c24PrepareTarget(ts.name, filepath.Join(tdir, fmt.Sprint(i)), ts.subset, ts.rot, ts.seg)
+			if pe, ok := err.(*c24PristineErr); ok {
+				pe.f.Sig = "roundtrip-" + pe.f.Sig
+				x.viol(pe.f, c24Case{Subset: ts.subset, Rot: ts.rot, SegSize: ts.seg, Writer: "writers"})
+				continue
+			}
 			if err != nil {
 				t.Fatalf("c24: preparing target %s: %v", ts.name, err)
 			}
@@ -785,7 +798,8 @@ func TestVerifC24(t *testing.T) {
 		}
 		return
 	}
-	c24SelfTest(t)
+	c24SelfTest(t, x)
+	tStart := time.Now()
 
 	// ---- part D
 	names := []string{"small", "two-files"}
@@ -843,8 +857,9 @@ func TestVerifC24(t *testing.T) {
 		})
 	})
 	r.Count("damage_cases", int(doneD.Load()))
+	t.Logf("c24: part D done after %v", time.Since(tStart))
 	// ---- part R
-	maxSet := vx.Pick(r, 3, 5)
+	maxSet := vx.Pick(r, 2, 5)
 	var cases []c24Case
 	vx.Subsets(len(c24Universe), maxSet, func(idx []int) bool {
 		if len(idx) == 0 {
@@ -864,11 +879,12 @@ func TestVerifC24(t *testing.T) {
 	r.ParallelN(int64(len(cases)), func(i int64) {
 		c := cases[i]
 		// CreateBlock (BlockWriter) is the slow path: rot 0 with the default segment size only
-		x.roundTrip(c, c.Rot == 0 && c.SegSize == 0 && (r.Thorough() || len(c.Subset) <= 2))
+		x.roundTrip(c, c.Rot == 0 && c.SegSize == 0 && (r.Thorough() || len(c.Subset) <= 1))
 		k := doneR.Add(1)
 		r.SampleAt(k, func() any { return map[string]any{"part": "round trip", "case": c} })
 	})
 	r.Count("roundtrip_cases", int(doneR.Load()))
+	t.Logf("c24: part R done after %v", time.Since(tStart))
 
 	r.Set("damage_cases_planned", len(dmg))
 	r.Set("roundtrip_cases_planned", len(cases))
